@@ -1046,11 +1046,61 @@ theorem reentry_equiv (r : Reentry) (s : Shadow) : reentryResolves r s = Spec.re
 theorem reentry_global (r : Reentry) (s : Shadow) (h : r ≠ .ottoEval) : reentryResolves r s = .global := by
   cases r <;> first | rfl | exact absurd rfl h
 
-/-- Every API edge case gives the specified result – in particular none ends in a Go panic. -/
-theorem api_cases (c : ApiCase) : apiModel c = Spec.apiSpec c := by
-  cases c <;> rfl
+/-- Outside the listed regions every API edge case gives the specified result (in particular: no Go panic). -/
+theorem api_cases (c : ApiCase) (h : Spec.Dev.apiRegion c = none) : apiModel c = Spec.apiSpec c := by
+  cases c <;> first | rfl | (simp [Spec.Dev.apiRegion] at h)
 
-theorem api_no_panic (c : ApiCase) : apiModel c ≠ .goPanic := by
-  cases c <;> simp [apiModel]
+theorem api_no_panic (c : ApiCase) (h : Spec.Dev.apiRegion c = none) : apiModel c ≠ .goPanic := by
+  cases c <;> first | (simp [Spec.Dev.apiRegion] at h; done) | (simp [apiModel])
+
+example : apiModel .runThrowToStringHostThrows = .goPanic ∧ Spec.apiSpec .runThrowToStringHostThrows = .errPlain := ⟨rfl, rfl⟩
+example : apiModel .setZeroObject = .goPanic ∧ apiModel .setPtrZeroObject = .goPanic := ⟨rfl, rfl⟩
+
+/-! ## Part E: arithmetic on Go values; Copy() -/
+
+/-- is the stored value a non-string primitive? -/
+def NumLike (g : GoVal) : Prop :=
+  match Spec.target g with
+  | .nil => True
+  | .sc _ (.str _) => False
+  | .sc _ _ => True
+  | _ => False
+
+theorem stored_numlike (E : Env) (g : GoVal) (j : JS) (h : toValue g = .ok j) (hn : NumLike g) :
+    ∃ v, primOf j = some v ∧ Spec.numberOfGo E g = .ok (OttoVerif.C05.toFloat E v) := by
+  cases toValue_stored g j h with
+  | undef a b => subst b; exact ⟨.undef, rfl, by simp [Spec.numberOfGo, a, OttoVerif.C05.toFloat]⟩
+  | direct s a b =>
+    subst b
+    simp only [NumLike, a] at hn
+    cases s with
+    | str bs => exact hn.elim
+    | _ => exact ⟨_, rfl, by simp [Spec.numberOfGo, a, Spec.scNumber, OttoVerif.C05.toFloat]⟩
+  | refl n s a b =>
+    subst b
+    simp only [NumLike, a] at hn
+    cases s with
+    | str bs => exact hn.elim
+    | _ => exact ⟨_, rfl, by simp [Spec.numberOfGo, a, Spec.scNumber, OttoVerif.C05.toFloat]⟩
+  | obj g' a b =>
+    cases ht : Spec.target g <;> simp [ht, isObjG] at b <;> simp [NumLike, ht] at hn
+
+/-- `vm.Set("a", g1); vm.Set("b", g2); vm.Run("a op b")` for + − * % on every pair of Go numeric kinds, bool and nil:
+    the Value that comes back is the float64 of the IEEE operation on the two Number counterparts (so −0 keeps its
+    sign and no integer fast path exists).  Division goes through C05's `evaluateDivide` (C05's theorem). -/
+theorem arith_roundtrip (E : Env) (op : OttoVerif.C05.BinOp) (g1 g2 : GoVal) (j1 j2 : JS)
+    (h1 : toValue g1 = .ok j1) (h2 : toValue g2 = .ok j2) (n1 : NumLike g1) (n2 : NumLike g2)
+    (hop : op = .add ∨ op = .sub ∨ op = .mul ∨ op = .rem) :
+    arith E op g1 g2 = Spec.arith E op g1 g2 := by
+  obtain ⟨x, hx, hnx⟩ := stored_numlike E g1 j1 h1 n1
+  obtain ⟨y, hy, hny⟩ := stored_numlike E g2 j2 h2 n2
+  simp only [arith, Spec.arith, h1, h2, Res.bind, hx, hy, hnx, hny]
+  rcases hop with rfl | rfl | rfl | rfl <;> rfl
+
+/-- a host function running on a copy sees the copy -/
+theorem copy_host_otto (r : Reentry) : hostOttoOnCopy r = Spec.hostOttoOnCopy r := rfl
+
+-- int32 × int32: the sign of zero survives
+example : arith env0 .mul (.sc false (.int .i32 0)) (.sc false (.int .i32 (-5))) = .ok (.f64 negZero) := by decide
 
 end OttoVerif.C15.Thm
